@@ -76,10 +76,16 @@ class BuiltinMixin:
             # int(s): ValueError unless s is a (possibly signed/space-padded) decimal; modelled for digit strings only
             ok = self.str_isdigit(v.t)
             self.pending.append((z3.Not(ok), "ValueError", None))
+            if getattr(self, "str_shape", None):
+                from .values import STRINT
+                return SV(TInt, STRINT(v.t))
             return SV(TInt, z3.StrToInt(v.t))
         raise Unsupported(f"int({v!r})")
 
     def str_isdigit(self, t):
+        if getattr(self, "str_shape", None):
+            from .values import ISDIGIT
+            return ISDIGIT(t)
         return z3.StrToInt(t) >= 0
 
     def bi_str(self, args, kwargs, st, node):
@@ -236,6 +242,9 @@ class BuiltinMixin:
         i, j = z3.Int(fresh_name("i")), z3.Int(fresh_name("j"))
         st.pc = st.pc + (
             r.n == v.n,
+            # sorting an already ascending list changes nothing (assumed property of sorted/list.sort, audited)
+            z3.Implies(z3.ForAll([i, j], z3.Implies(z3.And(0 <= i, i < j, j < v.n), v.a[i] <= v.a[j])),
+                       z3.ForAll([i], z3.Implies(z3.And(0 <= i, i < v.n), r.a[i] == v.a[i]))),
             z3.ForAll([i, j], z3.Implies(z3.And(0 <= i, i < j, j < r.n), r.a[i] <= r.a[j])),
             z3.ForAll([i], z3.Implies(z3.And(0 <= i, i < r.n), z3.And(0 <= p(i), p(i) < v.n, q(p(i)) == i, r.a[i] == v.a[p(i)]))),
             z3.ForAll([i], z3.Implies(z3.And(0 <= i, i < v.n), z3.And(0 <= q(i), q(i) < r.n, p(q(i)) == i))),
